@@ -2,7 +2,7 @@
 # Copyright 2021 BBC
 # SPDX-License-Identifier: Apache-2.0
 
-from typing import Optional, Tuple
+from typing import Optional, Tuple, List
 from xml.etree.ElementTree import Element
 
 
@@ -26,6 +26,18 @@ def insert_node(parent: Element, node: Element, index: int):
     Insert *node* in *parent* at *index*.
     """
     parent.insert(index, node)
+
+
+def move_nodes(parent: Element, nodes: List[Element], before: Optional[Element] = None):
+    """
+    Move *nodes* (children of *parent*) so they appear, in the given order,
+    immediately before the child *before*, or at the end if it is ``None``.
+    """
+    for node in nodes:
+        parent.remove(node)
+    index = len(parent) if before is None else list(parent).index(before)
+    for i, node in enumerate(nodes, start=index):
+        parent.insert(i, node)
 
 
 def append_node(parent, node):
